@@ -165,3 +165,88 @@ func (f *Fn) RangeLoopWith(m Matcher) func(ast.Node) bool {
 		return ok && f.Graph.Contains(rs.Body, m)
 	}
 }
+
+// PassesBetween: every CFG path from an occurrence of a to an occurrence of b passes an
+// occurrence of mid (no requirement that a dominates b).
+func (f *Fn) PassesBetween(rule string, a, mid, b Matcher) bool {
+	what := "every path " + a.Desc + " ⇝ " + b.Desc + " passes " + mid.Desc
+	as := f.need(rule, a, what)
+	ms := f.need(rule, mid, what)
+	bs := f.need(rule, b, what)
+	if len(as) == 0 || len(ms) == 0 || len(bs) == 0 {
+		return false
+	}
+	for _, al := range as {
+		al := al
+		if p, t := f.search(&al, bs, ms); p != nil {
+			f.C.Fail(rule, f.Where(), what, f.At(*t), fmt.Sprintf("from %s at %s, %s at %s is reachable without %s: %s", a.Desc, f.At(al), b.Desc, f.At(*t), mid.Desc, f.pathString(p)))
+			return false
+		}
+	}
+	f.C.Pass(rule, f.Where(), what, fmt.Sprintf("%d×A %d×M %d×B", len(as), len(ms), len(bs)))
+	return true
+}
+
+// ReadVar matches a read of the local variable / parameter with that name (an identifier use
+// that is not the target of an assignment, definition, ++/-- or &x).
+func ReadVar(name string) Matcher {
+	writes := map[*Graph]map[*ast.Ident]bool{}
+	return Matcher{Desc: "read " + name, F: func(g *Graph, n ast.Node, _ Mode) bool {
+		id, ok := n.(*ast.Ident)
+		if !ok || id.Name != name {
+			return false
+		}
+		if _, isVar := g.Info.Uses[id].(*types.Var); !isVar {
+			return false
+		}
+		w := writes[g]
+		if w == nil {
+			w = map[*ast.Ident]bool{}
+			ast.Inspect(g.Body, func(x ast.Node) bool {
+				switch s := x.(type) {
+				case *ast.AssignStmt:
+					for _, l := range s.Lhs {
+						if li, ok := l.(*ast.Ident); ok {
+							w[li] = true
+						}
+					}
+				case *ast.IncDecStmt:
+					if li, ok := s.X.(*ast.Ident); ok {
+						w[li] = true
+					}
+				}
+				return true
+			})
+			writes[g] = w
+		}
+		return !w[id]
+	}}
+}
+
+// CondTest matches a branch condition (the expression ending a CFG block with two successors)
+// whose printed text contains every given substring.
+func CondTest(substrs ...string) Matcher {
+	return Matcher{Desc: "test of `" + strings.Join(substrs, "`,`") + "`", F: func(g *Graph, n ast.Node, _ Mode) bool {
+		e, ok := n.(ast.Expr)
+		if !ok {
+			return false
+		}
+		isCond := false
+		for _, b := range g.live {
+			if condOf(b) == e {
+				isCond = true
+				break
+			}
+		}
+		if !isCond {
+			return false
+		}
+		t := types.ExprString(e)
+		for _, s := range substrs {
+			if !strings.Contains(t, s) {
+				return false
+			}
+		}
+		return true
+	}}
+}
